@@ -4,6 +4,7 @@
   py2coq.py kernels    <repo> <out.v>   scalar cost kernels (ABCCost, HLQuadraticCost static methods)
   py2coq.py validators <repo> <out.v>   parameter validators (setter guard blocks)
   py2coq.py signatures <repo> <out.v>   constructor parameters / dumped keys per class
+  py2coq.py classes    <repo> <out.v>   class-level cost / deriv / hess of the simple atomic devices (graceful fallback per method)
 
 Anything outside the whitelist raises Unsupported naming the file, line and node: the caller treats that
 as a broken obligation ("translator:<file>:<line>:<node>").  Output is deterministic text; the caller only
@@ -238,6 +239,9 @@ def main(argv):
     elif what == 'signatures':
       from signatures_tx import gen_signatures
       text = gen_signatures(repo)
+    elif what == 'classes':
+      from classes_tx import gen_classes
+      text = gen_classes(repo)
     else:
       print(__doc__)
       return 2
